@@ -65,7 +65,7 @@ def _mask_posts(out, mask, lf, collected=None):
 class PolarsCoerceFailureCases(Contract):
     target = f"{MOD}:polars_coerce_failure_cases"
     check_frame = False
-    split = {"build": ["query_builds", "TypeError", "InvalidOperationError"]}
+    split = {"build": ["query_builds", "TypeError", "InvalidOperationError"], "key": ["a", None]}
 
     def setup(self, I):
         PL.install(I)
@@ -84,7 +84,7 @@ class PolarsCoerceFailureCases(Contract):
             I.models[id(PE.polars_object_coercible)] = refuses
 
     def make_args(self):
-        lf, data = _container("a")
+        lf, data = _container(self.fixed.get("key", "a"))
         cur().ghost["lf"] = lf
         return {"data_container": data, "type_": core.SAny(name="type_")}
 
@@ -104,9 +104,9 @@ class PolarsCoerceFailureCases(Contract):
         m = core.as_z3_bool(mask.cols[KEY].at(i))
         out["failure_cases_are_the_masked_out_rows"] = SBool(fc.sel(i) == z3.And(lf.sel(i), z3.Not(m)))
         casts = cur().ghost.get("polars_casts", [])
-        a = lf.cols["a"]
         castable = cur().ghost.get("castable")
-        per_value = z3.Or(a.null(i), castable(PL._term(a.at(i)))) if castable is not None else z3.BoolVal(False)
+        names = ["a"] if self.fixed.get("key", "a") == "a" else list(lf.cols)  # no key: a row is coercible iff every column's value is
+        per_value = z3.And(*[z3.Or(lf.cols[n].null(i), castable(PL._term(lf.cols[n].at(i)))) for n in names]) if castable is not None else z3.BoolVal(False)
         # either the per-value verdict, or - when polars could not evaluate the cast at all - false on every row
         j = z3.Int(cur().fresh_name("j"))
         all_false = z3.ForAll([j], z3.Implies(lf.sel(j), z3.Not(core.as_z3_bool(mask.cols[KEY].at(j)))))
